@@ -39,7 +39,7 @@ func (c cfg) String() string {
 	return fmt.Sprintf("%s-e%d-w%v-q%d-f%v", b.String(), c.Emits, c.Waiter, c.SeqFirst, c.Fixed)
 }
 
-var sources = []gostatsd.Source{"10.0.0.1", "10.0.0.2", ""}
+var sources = []gostatsd.Source{"10.0.0.1", "10.0.0.2", "", "10.0.0.3"}
 
 type outItem struct {
 	kind   byte
@@ -397,6 +397,8 @@ func configs() []cfg {
 	cs := []cfg{
 		{A("m0e0"), 1, false, 0, false}, {A("e0m0"), 1, false, 0, false}, {A("m0m0"), 0, false, 0, false}, {A("e0e0"), 0, true, 0, false}, {A("m0e1"), 0, false, 0, false},
 		{A("e0m2"), 0, true, 0, false},
+		// three new sources in a row: one lookup on offer to the cache, two more waiting behind it
+		{A("m0e1m3"), 0, false, 3, true},
 		// two events of one source parked (items 2, hosts 1) while the numbers are read
 		{A("e0e0"), 1, false, 2, true},
 	}
